@@ -531,6 +531,30 @@ func (sc *srvScen) outboundPaths(bl *rangeList) {
 		}
 		sc.checkWrites(w0)
 	}
+	// the public Query API towards blocked addresses, crossed with every rate-limiting option of the caller
+	// (the options select different send paths) and the query methods
+	for m := 0; m < 16 && !sc.dead; m++ {
+		addr := sc.addrFor(bl, true)
+		if !sc.isBlocked(addr.IP) {
+			continue
+		}
+		rl := dht.QueryRateLimiting{NotFirst: m&1 != 0, NotAny: m&2 != 0, WaitOnRetries: m&4 != 0, NoWaitFirst: m&8 != 0}
+		w0 := sc.conn.numWrites()
+		sc.resend.Store(int64(time.Millisecond))
+		ctx, cancel := context.WithTimeout(context.Background(), 2*time.Second)
+		method := []string{"ping", "find_node", "get_peers", "get"}[r.Intn(4)]
+		tgt := sc.r.randID()
+		res := sc.s.Query(ctx, dht.NewAddr(addr), method, dht.QueryInput{RateLimiting: rl, NumTries: 1 + r.Intn(3),
+			MsgArgs: krpc.MsgArgs{Target: tgt, InfoHash: tgt}})
+		cancel()
+		sc.resend.Store(int64(time.Hour))
+		sc.ev("Query(%s) to blocked %s with %+v -> err=%v writes=%d", method, addr, rl, res.Err, res.Writes)
+		if res.Err == nil {
+			sc.viol("C19", "query to a blocklisted address reports success")
+		}
+		sc.checkWrites(w0)
+		sc.r.hist(fmt.Sprintf("outbound/query-to-blocked/flags=%d", m))
+	}
 	// traversals seeded with blocked and unblocked addresses: announce (get_peers) and bootstrap (find_node)
 	var seeds []dht.Addr
 	for i := 0; i < 6; i++ {
